@@ -79,20 +79,33 @@ def chunks_of(path: str, size: int, seed: int):
         yield (buf, base, seed)
 
 
-def pool_map(fn, tasks, procs: int | None = None, per_task_timeout: float = 600.0):
-    """imap over a fork pool with a wall guard per task: a task that does not come back is a termination
-    failure of some case in it (reported by the caller), not a hang of the check."""
+def pool_map(fn, tasks, procs: int | None = None, per_task_timeout: float = 600.0, stream: bool = False):
+    """Run fn over the tasks in a fork pool.  A task that does not come back within the wall guard is a
+    termination failure of some case in it (reported by the caller), not a hang of the check.
+    stream=True: `tasks` may be a generator (the TLC output is not loaded at once); lost tasks are then only
+    counted (None entries), with stream=False they are returned."""
     procs = procs or PROCS or max(2, min(NCPU, 16))
     ctxmp = mp.get_context("fork")
     pool = ctxmp.Pool(procs, maxtasksperchild=50)
     results, lost = [], []
     try:
-        pending = [(t, pool.apply_async(fn, (t,))) for t in tasks]
-        for t, a in pending:
-            try:
-                results.append(a.get(timeout=per_task_timeout))
-            except mp.TimeoutError:
-                lost.append(t)
+        if stream:
+            it = pool.imap_unordered(fn, tasks)
+            while True:
+                try:
+                    results.append(it.next(timeout=per_task_timeout))
+                except StopIteration:
+                    break
+                except mp.TimeoutError:
+                    lost.append(None)
+                    break
+        else:
+            pending = [(t, pool.apply_async(fn, (t,))) for t in tasks]
+            for t, a in pending:
+                try:
+                    results.append(a.get(timeout=per_task_timeout))
+                except mp.TimeoutError:
+                    lost.append(t)
     finally:
         pool.terminate()
         pool.join()
